@@ -22,7 +22,19 @@ ARRAY_ASSUME = [
     "caller's Value.Storable returns a storable of size <= the limit it is given (harness value type TV does; modelled by toStorable)",
 ]
 
+HEALTH_ASSUME = [
+    "the heap given to the model is the set of slabs the slab iterator yields with all slabs loaded (non-nil entries of the storage view); the harness dumps it from the real storage through the verif hooks",
+    "ChildStorables() of caller-supplied storables lists exactly their child storables (harness value types do)",
+    "the model iterates the heap in list order where Go iterates maps in random order; theorems quantify over all heaps (all orders)",
+]
+
 PROPS = {
+    "C20": {
+        "streams": ["health"], "driver": {"health": "health"}, "level": "proof",
+        "trusted_base": LEAN_TB, "assumptions": HEALTH_ASSUME,
+        "rule": "healthy storages (1-3 arrays at T=256, up to ~40 slabs, large values in own slabs, uncommitted and committed+reloaded) x each corruption kind (delete referenced: pending / committed / physical; extra unreferenced; double reference; foreign owner) at sampled slabs (all slabs in the thorough tier); distinct = distinct (label, heap) pairs",
+        "explanation": "Theorems: health_sound / health_complete (check accepts exactly the Healthy heaps and returns the true roots), four corruption theorems, allrefs_exact. Tie: every heap dumped from the real storage is checked by the model and the outcome compared with CheckStorageHealth / GetAllChildReferences. Oracle: an independent graph walker in Go.",
+    },
     "C15": {
         "streams": ["storage"], "driver": {"storage": "storage"}, "level": "proof",
         "trusted_base": LEAN_TB, "assumptions": STORAGE_ASSUME,
